@@ -683,3 +683,452 @@ Proof.
     rewrite (map_ext _ (clipC orc (nobs d))) by (intros; apply clip_is_model). apply geq_refl.
   - split; cbn [W gam set_gam]; [reflexivity|]. now rewrite set_nth_length.
 Qed.
+
+(* ---------------------------------------------------------------- the vector Gaussian block _W_step *)
+Lemma vnth_repeat0 D k : vnth (repeat 0 D) k = 0.
+Proof. unfold vnth. revert k. induction D as [|D IH]; intros [|k]; cbn [repeat nth]; try reflexivity. apply IH. Qed.
+
+Lemma vnth_nil k : vnth [] k = 0.
+Proof. unfold vnth. destruct k; reflexivity. Qed.
+
+(* a row gathered by get with the zero row of D zeros: it has D entries and reads like the model's get_r *)
+Lemma getrow_spec M n D i : shape2 M n D ->
+  let r := if (i =? -1)%Z then repeat 0 D else np_get (repeat 0 D) M i in
+  length r = D /\ forall k, vnth r k = vnth (get_r M i) k.
+Proof.
+  intros [Hn Hr]. cbv zeta. unfold get_r. destruct (i =? -1)%Z.
+  - split; [apply repeat_length | intros k; now rewrite vnth_repeat0, vnth_nil].
+  - unfold np_get, py_r, rnth. rewrite Hn. set (p := pyidx n i).
+    destruct (Nat.lt_ge_cases p n) as [Hp|Hp].
+    + rewrite (nth_indep M (repeat 0 D) []) by lia. split; [apply (Hr p Hp) | reflexivity].
+    + rewrite !nth_overflow by lia. split; [apply repeat_length | intros k; now rewrite vnth_repeat0, vnth_nil].
+Qed.
+
+Lemma list_as_tab (l : list Qc) D : length l = D -> l = tab D (vnth l).
+Proof. intros H. rewrite <- (map_id l) at 1. rewrite (map_as_tab (fun x => x)), H. reflexivity. Qed.
+
+Lemma zipw_rows {C} (f : Qc -> Qc -> C) (a b : list Qc) D : length a = D -> length b = D ->
+  zipw f a b = tab D (fun k => f (vnth a k) (vnth b k)).
+Proof. intros Ha Hb. rewrite (list_as_tab a D Ha), (list_as_tab b D Hb) at 1. apply zipw_tab. Qed.
+
+(* r . v computed by numpy on a row of D entries is the model's D-term dot product, whatever the length of v *)
+Lemma sumn_shift n f : sumn (S n) f = f O + sumn n (fun k => f (S k)).
+Proof. unfold sumn. cbn [seq map]. rewrite <- seq_shift, map_map. reflexivity. Qed.
+
+Lemma dot_any (a b : list Qc) D : length a = D -> qsum (zipw Qcmult a b) = vdot D a b.
+Proof.
+  revert b D. induction a as [|x a IH]; intros b D H; cbn [length] in H; subst D.
+  - reflexivity.
+  - unfold vdot. rewrite sumn_shift. destruct b as [|y b]; cbn [zipw].
+    + cbn [qsum fold_right]. rewrite sumn_zero' by (intros; rewrite vnth_nil; ring). unfold vnth; cbn [nth]. ring.
+    + cbn [qsum fold_right]. fold (qsum (zipw Qcmult a b)). rewrite (IH b (length a) eq_refl). reflexivity.
+Qed.
+
+Lemma add_diag_tab2 n D F v :
+  np_add_diag (tab2 n D F) v = tab2 n D (fun j k => F j k + (if Nat.eqb j k then vnth v j else 0)).
+Proof.
+  unfold np_add_diag. rewrite (proj1 (tab2_shape n D F)). unfold tab2 at 2. apply tab_ext. intros j Hj.
+  rewrite (proj2 (tab2_shape n D F) j Hj). apply tab_ext. intros k Hk.
+  unfold rnth, tab2. rewrite rnth_tab by exact Hj. now rewrite vnth_tab.
+Qed.
+
+(* the design-matrix row of observation i, as the code assembles it from four get calls *)
+Lemma xrow_is_model g d s i : shape2 (V2 s) (c_ndd g) (c_D g) -> shape2 (V1 s) (c_ndd g) (c_D g) ->
+  let row M ix := if (ix =? -1)%Z then repeat 0 (c_D g) else np_get (repeat 0 (c_D g)) M ix in
+  np_vadd (np_vmul (row (V2 s) (nth i (d_dd1 d) 0%Z)) (row (V2 s) (nth i (d_dd2 d) 0%Z)))
+          (np_vadd (row (V1 s) (nth i (d_dd1 d) 0%Z)) (row (V1 s) (nth i (d_dd2 d) 0%Z)))
+  = xrow_W g d s i.
+Proof.
+  intros H2 H1. cbv zeta. unfold xrow_W, znth. cbv zeta.
+  destruct (getrow_spec (V2 s) _ _ (nth i (d_dd1 d) 0%Z) H2) as [La Ea].
+  destruct (getrow_spec (V2 s) _ _ (nth i (d_dd2 d) 0%Z) H2) as [Lb Eb].
+  destruct (getrow_spec (V1 s) _ _ (nth i (d_dd1 d) 0%Z) H1) as [Lc Ec].
+  destruct (getrow_spec (V1 s) _ _ (nth i (d_dd2 d) 0%Z) H1) as [Ld Ed].
+  cbv zeta in *. unfold np_vadd, np_vmul.
+  rewrite (zipw_rows Qcmult _ _ _ La Lb), (zipw_rows Qcplus _ _ _ Lc Ld), zipw_tab.
+  unfold vadd, vmul. apply tab_ext. intros k Hk. rewrite !vnth_tab by exact Hk. now rewrite Ea, Eb, Ec, Ed.
+Qed.
+
+Lemma X_is_model g d s idx : shape2 (V2 s) (c_ndd g) (c_D g) -> shape2 (V1 s) (c_ndd g) (c_D g) ->
+  zipw np_vadd
+    (zipw np_vmul
+       (map (fun x => if (nth x (d_dd1 d) 0 =? -1)%Z then repeat 0 (c_D g) else np_get (repeat 0 (c_D g)) (V2 s) (nth x (d_dd1 d) 0%Z)) idx)
+       (map (fun x => if (nth x (d_dd2 d) 0 =? -1)%Z then repeat 0 (c_D g) else np_get (repeat 0 (c_D g)) (V2 s) (nth x (d_dd2 d) 0%Z)) idx))
+    (zipw np_vadd
+       (map (fun x => if (nth x (d_dd1 d) 0 =? -1)%Z then repeat 0 (c_D g) else np_get (repeat 0 (c_D g)) (V1 s) (nth x (d_dd1 d) 0%Z)) idx)
+       (map (fun x => if (nth x (d_dd2 d) 0 =? -1)%Z then repeat 0 (c_D g) else np_get (repeat 0 (c_D g)) (V1 s) (nth x (d_dd2 d) 0%Z)) idx))
+  = map (xrow_W g d s) idx.
+Proof.
+  intros H2 H1. rewrite !zipw_map. apply map_ext. intros i. apply (xrow_is_model g d s i H2 H1).
+Qed.
+
+Section VectorBlock.
+Variables (D : nat) (xr : nat -> list Qc) (b : nat -> Qc) (idx : list nat) (p : Qc).
+Hypothesis Hxr : forall i, length (xr i) = D.
+Let rows : rowsT := map (fun i => (b i, xr i)) idx.
+
+Lemma matvec_rows v : np_matvec (map xr idx) v = map (fun i => vdot D (xr i) v) idx.
+Proof. unfold np_matvec. rewrite map_map. apply map_ext. intros i. apply dot_any, Hxr. Qed.
+
+Lemma transpose_rows : np_transpose D (map xr idx) = tab D (fun j => map (fun i => vnth (xr i) j) idx).
+Proof. unfold np_transpose. apply tab_ext. intros j _. apply map_map. Qed.
+
+Lemma xtr_is_model : np_vmuls (np_matvec (np_transpose D (map xr idx)) (map b idx)) p = xtr D p rows.
+Proof.
+  rewrite transpose_rows. unfold np_vmuls, np_matvec, xtr, rows. rewrite !map_tab. apply tab_ext. intros j _.
+  rewrite zipw_map, map_map. cbn [fst snd]. ring.
+Qed.
+
+Lemma gram_is_model lam :
+  np_add_diag (np_mmuls (np_matmul D (np_transpose D (map xr idx)) (map xr idx)) p) lam = gramQ D p rows lam.
+Proof.
+  rewrite transpose_rows. unfold np_mmuls, np_matmul, np_vmuls, gramQ, rows. rewrite !map_tab.
+  rewrite (tab_ext _ _ (fun j => tab D (fun k => qsum (map (fun i => vnth (xr i) j * vnth (xr i) k) idx) * p))).
+  2:{ intros j _. rewrite map_tab. apply tab_ext. intros k _. now rewrite map_map, zipw_map. }
+  fold (tab2 D D (fun j k => qsum (map (fun i => vnth (xr i) j * vnth (xr i) k) idx) * p)).
+  rewrite add_diag_tab2. unfold tab2. apply tab_ext. intros j _. apply tab_ext. intros k _.
+  rewrite map_map. cbn [snd]. ring.
+Qed.
+End VectorBlock.
+
+Theorem src_W_step_is_model g d orc s :
+  length (W s) = c_ncl g -> shape2 (V2 s) (c_ndd g) (c_D g) -> shape2 (V1 s) (c_ndd g) (c_D g) ->
+  prog_eq (to_prog (src_W_step g d s)) (step_prog g d orc BW s).
+Proof.
+  intros HW H2 H1. unfold src_W_step. cbv zeta. cbn [step_prog]. rewrite zrange_of_nat.
+  eapply prog_eq_trans; [apply to_prog_gbind|].
+  eapply prog_eq_trans; [|apply bind_ret_r]. apply bind_cong; [|intros; apply prog_eq_refl].
+  apply (fold_is_seq_blocks (fun s' => length (W s') = c_ncl g /\ V2 s' = V2 s /\ V1 s' = V1 s) _ (fun c s' => block_W g d s' c)).
+  - intros s' c Hin (HW' & E2 & E1). assert (Hc : (c < length (W s'))%nat) by (apply in_seq in Hin; lia).
+    rewrite <- E2 in H2. rewrite <- E1 in H1. clear Hin HW' E2 E1 HW s.
+    cbv beta. unfold block_W. cbv zeta. rewrite of_nat_eqb0.
+    destruct (positions (Z.of_nat c) (d_cl d)) as [|i cidx] eqn:E; cbn [length fst snd].
+    + unfold draw_normal_vec. cbn [gbind]. rewrite !map_map. constructor. intros v. rewrite np_store_nat. apply geq_refl.
+    + rewrite <- E. clear E i cidx. set (cidx := positions (Z.of_nat c) (d_cl d)).
+      rewrite !src_get_is_model. cbn [gbind]. unfold np_gather. rewrite !map_map.
+      unfold q0, qnum. rewrite (X_is_model g d s' cidx H2 H1).
+      assert (Hxr : forall i, length (xrow_W g d s' i) = c_D g) by (intros; apply tab_length).
+      rewrite np_get_nat. fold (rnth (W s') c).
+      rewrite (matvec_rows (c_D g) (xrow_W g d s') cidx Hxr).
+      unfold np_vadd, np_vsub. rewrite !zipw_map. 
+      set (b := fun x : nat => nth x (d_y d) 0 - nth x (Mu s') 0 + vdot (c_D g) (xrow_W g d s' x) (rnth (W s') c)).
+      rewrite (xtr_is_model (c_D g) (xrow_W g d s') b cidx (prec s')).
+      rewrite (gram_is_model (c_D g) (xrow_W g d s') b cidx (prec s') (tau s')).
+      unfold draw_mvn. cbn [gbind].
+      change (mk_rows g d s' (xrow_W g d s') (rnth (W s') c) cidx) with (map (fun i => (b i, xrow_W g d s' i)) cidx).
+      constructor. intros [q|w|m|]; try apply geq_refl.
+      rewrite np_store_nat. cbn [W set_W Mu]. rewrite np_get_nat, nth_set_nth_same by exact Hc.
+      rewrite (matvec_rows (c_D g) (xrow_W g d s') cidx Hxr), zipw_map.
+      unfold np_iadd_at, mvn_deltas. rewrite map_map. cbn [snd]. apply geq_refl.
+  - intros s' c v _ (HW' & E2 & E1). unfold block_W. cbv zeta.
+    destruct (positions _ _); cbn [snd]; [|destruct v]; cbn [W V2 V1 set_W set_Mu]; rewrite ?set_nth_length; auto.
+  - auto.
+Qed.
+
+(* ---------------------------------------------------------------- the vector Gaussian blocks _V2_step, _V1_step *)
+(* the same facts for design rows given as a list of (residual, row) pairs - the two slices of a V block concatenated *)
+Section RowsBlock.
+Variables (D : nat) (rows : rowsT) (p : Qc).
+Hypothesis Hrows : forall r, In r rows -> length (snd r) = D.
+
+Lemma matvec_rows' v : np_matvec (map snd rows) v = map (fun r => vdot D (snd r) v) rows.
+Proof. unfold np_matvec. rewrite map_map. apply map_ext_in. intros r Hr. apply dot_any, Hrows, Hr. Qed.
+
+Lemma transpose_rows' : np_transpose D (map snd rows) = tab D (fun j => map (fun r => vnth (snd r) j) rows).
+Proof. unfold np_transpose. apply tab_ext. intros j _. apply map_map. Qed.
+
+Lemma zipw_same {X A B C} (f : A -> B -> C) (ga : X -> A) (gb : X -> B) (l : list X) :
+  zipw f (map ga l) (map gb l) = map (fun x => f (ga x) (gb x)) l.
+Proof. apply zipw_map. Qed.
+
+Lemma xtr_is_model' : np_vmuls (np_matvec (np_transpose D (map snd rows)) (map fst rows)) p = xtr D p rows.
+Proof.
+  rewrite transpose_rows'. unfold np_vmuls, np_matvec, xtr. rewrite !map_tab. apply tab_ext. intros j _.
+  rewrite zipw_map. ring.
+Qed.
+
+Lemma gram_is_model' lam :
+  np_add_diag_at (DiagIndices (Z.of_nat D)) (np_mmuls (np_matmul D (np_transpose D (map snd rows)) (map snd rows)) p) lam
+  = gramQ D p rows lam.
+Proof.
+  rewrite transpose_rows'. unfold np_mmuls, np_matmul, np_vmuls, gramQ. rewrite !map_tab.
+  rewrite (tab_ext _ _ (fun j => tab D (fun k => qsum (map (fun r => vnth (snd r) j * vnth (snd r) k) rows) * p))).
+  2:{ intros j _. rewrite map_tab. apply tab_ext. intros k _. now rewrite map_map, zipw_map. }
+  fold (tab2 D D (fun j k => qsum (map (fun r => vnth (snd r) j * vnth (snd r) k) rows) * p)).
+  unfold np_add_diag_at. rewrite (proj1 (tab2_shape D D _)). unfold tab2 at 2. apply tab_ext. intros j Hj.
+  rewrite (proj2 (tab2_shape D D _) j Hj). apply tab_ext. intros k Hk.
+  unfold rnth, tab2. rewrite rnth_tab by exact Hj. rewrite vnth_tab by exact Hk.
+  replace (Z.of_nat j <? Z.of_nat D)%Z with true by lia. rewrite andb_true_r. ring.
+Qed.
+End RowsBlock.
+
+(* a row of W gathered by a Python int, with the zero row of D zeros for an index outside: D entries, reads like py_r *)
+Lemma wrow_spec M n D i : shape2 M n D ->
+  length (np_get (repeat 0 D) M i) = D /\ forall k, vnth (np_get (repeat 0 D) M i) k = vnth (py_r M i) k.
+Proof.
+  intros [Hn Hr]. unfold np_get, py_r, rnth. rewrite Hn. set (q := pyidx n i).
+  destruct (Nat.lt_ge_cases q n) as [Hq|Hq].
+  - rewrite (nth_indep M (repeat 0 D) []) by lia. split; [apply (Hr q Hq) | reflexivity].
+  - rewrite !nth_overflow by lia. split; [apply repeat_length | intros k; now rewrite vnth_repeat0, vnth_nil].
+Qed.
+
+Lemma xrow_V2a_is_model g d s i : shape2 (W s) (c_ncl g) (c_D g) -> shape2 (V2 s) (c_ndd g) (c_D g) ->
+  np_vmul (np_get (repeat 0 (c_D g)) (W s) (nth i (d_cl d) 0%Z))
+          (if (nth i (d_dd2 d) 0 =? -1)%Z then repeat 0 (c_D g) else np_get (repeat 0 (c_D g)) (V2 s) (nth i (d_dd2 d) 0%Z))
+  = xrow_V2a g d s i.
+Proof.
+  intros HW H2. unfold xrow_V2a, znth, vmul, np_vmul.
+  destruct (wrow_spec (W s) _ _ (nth i (d_cl d) 0%Z) HW) as [La Ea].
+  destruct (getrow_spec (V2 s) _ _ (nth i (d_dd2 d) 0%Z) H2) as [Lb Eb]. cbv zeta in *.
+  rewrite (zipw_rows Qcmult _ _ _ La Lb). apply tab_ext. intros k _. now rewrite Ea, Eb.
+Qed.
+
+Lemma xrow_V2b_is_model g d s i : shape2 (W s) (c_ncl g) (c_D g) -> shape2 (V2 s) (c_ndd g) (c_D g) ->
+  np_vmul (np_get (repeat 0 (c_D g)) (W s) (nth i (d_cl d) 0%Z))
+          (if (nth i (d_dd1 d) 0 =? -1)%Z then repeat 0 (c_D g) else np_get (repeat 0 (c_D g)) (V2 s) (nth i (d_dd1 d) 0%Z))
+  = xrow_V2b g d s i.
+Proof.
+  intros HW H2. unfold xrow_V2b, znth, vmul, np_vmul.
+  destruct (wrow_spec (W s) _ _ (nth i (d_cl d) 0%Z) HW) as [La Ea].
+  destruct (getrow_spec (V2 s) _ _ (nth i (d_dd1 d) 0%Z) H2) as [Lb Eb]. cbv zeta in *.
+  rewrite (zipw_rows Qcmult _ _ _ La Lb). apply tab_ext. intros k _. now rewrite Ea, Eb.
+Qed.
+
+Lemma xrow_V1_is_model g d s i : shape2 (W s) (c_ncl g) (c_D g) ->
+  np_get (repeat 0 (c_D g)) (W s) (nth i (d_cl d) 0%Z) = xrow_V1 g d s i.
+Proof.
+  intros HW. unfold xrow_V1, znth.
+  destruct (wrow_spec (W s) _ _ (nth i (d_cl d) 0%Z) HW) as [La Ea].
+  rewrite (list_as_tab _ _ La). apply tab_ext. intros k _. apply Ea.
+Qed.
+
+(* `if len(idx) == 0: (r, o, X) = ([], [], empty) else: (r, o, X) = f(idx)` is f(idx) for slice-wise f *)
+Lemma if_len_nil_gen {X T} (l : list X) (F : list X -> T) (e : T) : F [] = e ->
+  (if (Z.of_nat (length l) =? 0)%Z then GRet e else GRet (F l)) = GRet (F l).
+Proof. intros <-. destruct l; reflexivity. Qed.
+
+(* During a V block the rows of V2 / V1 already redrawn may have ANY length (the theorems quantify over all drawn values),
+   so a design row is related to the model's D-padded row entrywise, not by equality *)
+Definition row_rel (D : nat) (a : list Qc) (r : Qc * list Qc) : Prop :=
+  (length a <= D)%nat /\ forall k, vnth a k = vnth (snd r) k.
+
+Lemma dot_le (a b : list Qc) D : (length a <= D)%nat -> qsum (zipw Qcmult a b) = vdot D a b.
+Proof.
+  revert b D. induction a as [|x a IH]; intros b D H; cbn [length] in H.
+  - cbn [zipw qsum fold_right]. unfold vdot. rewrite sumn_zero' by (intros; rewrite vnth_nil; ring). reflexivity.
+  - destruct D as [|D]; [lia|]. unfold vdot. rewrite sumn_shift. destruct b as [|y b]; cbn [zipw].
+    + cbn [qsum fold_right]. rewrite sumn_zero' by (intros; rewrite vnth_nil; ring). unfold vnth; cbn [nth]. ring.
+    + cbn [qsum fold_right]. fold (qsum (zipw Qcmult a b)). rewrite (IH b D) by lia. reflexivity.
+Qed.
+
+Lemma vnth_zipw_mul (a b : list Qc) k : vnth (zipw Qcmult a b) k = vnth a k * vnth b k.
+Proof.
+  unfold vnth. revert b k. induction a as [|x a IH]; intros b k.
+  - cbn [zipw]. destruct k; cbn [nth]; ring.
+  - destruct b as [|y b]; cbn [zipw].
+    + destruct k; cbn [nth]; [ring|]. destruct k; cbn [nth]; ring.
+    + destruct k; cbn [nth]; [reflexivity | apply IH].
+Qed.
+
+Lemma zipw_length_le {A B C} (f : A -> B -> C) a b : (length (zipw f a b) <= length a)%nat.
+Proof. revert b. induction a as [|x a IH]; intros [|y b]; cbn [zipw length]; try lia. specialize (IH b). lia. Qed.
+
+Lemma Forall2_map_same {X A B} (R : A -> B -> Prop) (f : X -> A) (h : X -> B) l :
+  (forall x, R (f x) (h x)) -> Forall2 R (map f l) (map h l).
+Proof. intros H. induction l as [|x l IH]; cbn [map]; constructor; [apply H | apply IH]. Qed.
+
+Lemma col_rel D X rows j : Forall2 (row_rel D) X rows ->
+  map (fun a => vnth a j) X = map (fun r => vnth (snd r) j) rows.
+Proof. induction 1 as [|a r X' rows' [_ Hr] _ IH]; cbn [map]; [reflexivity|]. now rewrite Hr, IH. Qed.
+
+Lemma matvec_rel D X rows v : Forall2 (row_rel D) X rows ->
+  np_matvec X v = map (fun r => vdot D (snd r) v) rows.
+Proof.
+  unfold np_matvec. induction 1 as [|a r X' rows' [Hl Hr] _ IH]; cbn [map]; [reflexivity|]. rewrite IH. f_equal.
+  rewrite (dot_le a v D Hl). unfold vdot. apply sumn_ext. intros k _. now rewrite Hr.
+Qed.
+
+Section RowsRel.
+Variables (D : nat) (X : list (list Qc)) (rows : rowsT) (p : Qc).
+Hypothesis HX : Forall2 (row_rel D) X rows.
+
+Lemma transpose_rel : np_transpose D X = tab D (fun j => map (fun r => vnth (snd r) j) rows).
+Proof. unfold np_transpose. apply tab_ext. intros j _. apply (col_rel D), HX. Qed.
+
+Lemma xtr_rel : np_vmuls (np_matvec (np_transpose D X) (map fst rows)) p = xtr D p rows.
+Proof.
+  rewrite transpose_rel. unfold np_vmuls, np_matvec, xtr. rewrite !map_tab. apply tab_ext. intros j _.
+  rewrite zipw_map. ring.
+Qed.
+
+Lemma gram_rel lam lam' : (forall j, (j < D)%nat -> vnth lam j = vnth lam' j) ->
+  np_add_diag_at (DiagIndices (Z.of_nat D)) (np_mmuls (np_matmul D (np_transpose D X) X) p) lam = gramQ D p rows lam'.
+Proof.
+  intros Hlam. rewrite transpose_rel. unfold np_mmuls, np_matmul, np_vmuls, gramQ. rewrite !map_tab.
+  rewrite (tab_ext _ _ (fun j => tab D (fun k => qsum (map (fun r => vnth (snd r) j * vnth (snd r) k) rows) * p))).
+  2:{ intros j _. rewrite map_tab. apply tab_ext. intros k _. now rewrite (col_rel D X rows k HX), zipw_map. }
+  fold (tab2 D D (fun j k => qsum (map (fun r => vnth (snd r) j * vnth (snd r) k) rows) * p)).
+  unfold np_add_diag_at. rewrite (proj1 (tab2_shape D D _)). unfold tab2 at 2. apply tab_ext. intros j Hj.
+  rewrite (proj2 (tab2_shape D D _) j Hj). apply tab_ext. intros k Hk.
+  unfold rnth, tab2. rewrite rnth_tab by exact Hj. rewrite vnth_tab by exact Hk.
+  replace (Z.of_nat j <? Z.of_nat D)%Z with true by lia. rewrite andb_true_r, (Hlam j Hj). ring.
+Qed.
+End RowsRel.
+
+(* entries of the gathered rows, without any shape assumption *)
+Lemma getrow_vnth M D i k :
+  vnth (if (i =? -1)%Z then repeat 0 D else np_get (repeat 0 D) M i) k = vnth (get_r M i) k.
+Proof.
+  unfold get_r. destruct (i =? -1)%Z; [now rewrite vnth_repeat0, vnth_nil|].
+  unfold np_get, py_r, rnth. set (q := pyidx (length M) i).
+  destruct (Nat.lt_ge_cases q (length M)) as [Hq|Hq]; [now rewrite (nth_indep M (repeat 0 D) []) by lia|].
+  rewrite !nth_overflow by lia. now rewrite vnth_repeat0, vnth_nil.
+Qed.
+
+Lemma rel_V2a g d s b i : shape2 (W s) (c_ncl g) (c_D g) ->
+  row_rel (c_D g)
+    (np_vmul (np_get (repeat 0 (c_D g)) (W s) (nth i (d_cl d) 0%Z))
+             (if (nth i (d_dd2 d) 0 =? -1)%Z then repeat 0 (c_D g) else np_get (repeat 0 (c_D g)) (V2 s) (nth i (d_dd2 d) 0%Z)))
+    (b, xrow_V2a g d s i).
+Proof.
+  intros HW. destruct (wrow_spec (W s) _ _ (nth i (d_cl d) 0%Z) HW) as [La Ea]. unfold np_vmul. split.
+  - eapply Nat.le_trans; [apply zipw_length_le | rewrite La; apply Nat.le_refl].
+  - intros k. cbn [snd]. unfold xrow_V2a, vmul, znth. rewrite vnth_zipw_mul, Ea, getrow_vnth.
+    destruct (Nat.lt_ge_cases k (c_D g)) as [Hk|Hk]; [now rewrite vnth_tab|].
+    unfold vnth at 1 3. rewrite (nth_overflow (tab _ _)) by (rewrite tab_length; lia).
+    fold (vnth (py_r (W s) (nth i (d_cl d) 0%Z)) k). rewrite <- Ea. unfold vnth at 1.
+    rewrite (nth_overflow (np_get _ _ _)) by lia. ring.
+Qed.
+
+Lemma rel_V2b g d s b i : shape2 (W s) (c_ncl g) (c_D g) ->
+  row_rel (c_D g)
+    (np_vmul (np_get (repeat 0 (c_D g)) (W s) (nth i (d_cl d) 0%Z))
+             (if (nth i (d_dd1 d) 0 =? -1)%Z then repeat 0 (c_D g) else np_get (repeat 0 (c_D g)) (V2 s) (nth i (d_dd1 d) 0%Z)))
+    (b, xrow_V2b g d s i).
+Proof.
+  intros HW. destruct (wrow_spec (W s) _ _ (nth i (d_cl d) 0%Z) HW) as [La Ea]. unfold np_vmul. split.
+  - eapply Nat.le_trans; [apply zipw_length_le | rewrite La; apply Nat.le_refl].
+  - intros k. cbn [snd]. unfold xrow_V2b, vmul, znth. rewrite vnth_zipw_mul, Ea, getrow_vnth.
+    destruct (Nat.lt_ge_cases k (c_D g)) as [Hk|Hk]; [now rewrite vnth_tab|].
+    unfold vnth at 1 3. rewrite (nth_overflow (tab _ _)) by (rewrite tab_length; lia).
+    fold (vnth (py_r (W s) (nth i (d_cl d) 0%Z)) k). rewrite <- Ea. unfold vnth at 1.
+    rewrite (nth_overflow (np_get _ _ _)) by lia. ring.
+Qed.
+
+Lemma rel_V1 g d s b i : shape2 (W s) (c_ncl g) (c_D g) ->
+  row_rel (c_D g) (np_get (repeat 0 (c_D g)) (W s) (nth i (d_cl d) 0%Z)) (b, xrow_V1 g d s i).
+Proof.
+  intros HW. rewrite (xrow_V1_is_model g d s i HW). split; [unfold xrow_V1; rewrite tab_length; lia | reflexivity].
+Qed.
+
+Lemma resid_rows g d s xr cur idx :
+  np_vadd (np_vsub (map (fun i => nth i (d_y d) 0) idx) (map (fun i => nth i (Mu s) 0) idx))
+          (map (fun r => vdot (c_D g) (snd r) cur) (mk_rows g d s xr cur idx))
+  = map fst (mk_rows g d s xr cur idx).
+Proof. unfold mk_rows, np_vadd, np_vsub. rewrite !map_map, !zipw_map. reflexivity. Qed.
+
+Lemma lam_V2_rel g s m j : (j < c_D g)%nat ->
+  vnth (np_vmul (np_get [] (phi2 s) (Z.of_nat m)) (eta2 s)) j = vnth (lam_V2 g s m) j.
+Proof. intros Hj. unfold np_vmul, lam_V2. rewrite vnth_zipw_mul, np_get_nat, vnth_tab by exact Hj. reflexivity. Qed.
+
+Theorem src_V2_step_is_model g d orc s :
+  length (V2 s) = c_ndd g -> shape2 (W s) (c_ncl g) (c_D g) -> shape2 (phi2 s) (c_ndd g) (c_D g) -> length (eta2 s) = c_D g ->
+  prog_eq (to_prog (src_V2_step g d s)) (step_prog g d orc BV2 s).
+Proof.
+  intros HV HW Hphi Heta. unfold src_V2_step. cbv zeta. cbn [step_prog]. rewrite zrange_of_nat.
+  eapply prog_eq_trans; [apply to_prog_gbind|].
+  eapply prog_eq_trans; [|apply bind_ret_r]. apply bind_cong; [|intros; apply prog_eq_refl].
+  apply (fold_is_seq_blocks (fun s' => W s' = W s /\ phi2 s' = phi2 s /\ eta2 s' = eta2 s /\ length (V2 s') = c_ndd g)
+           _ (fun m s' => block_V2 g d s' m)).
+  - intros s' m Hin (EW & Ephi & Eeta & HV'). assert (Hm : (m < length (V2 s'))%nat) by (apply in_seq in Hin; lia).
+    assert (Hm' : (m < c_ndd g)%nat) by lia.
+    rewrite <- EW in HW. rewrite <- Ephi in Hphi. rewrite <- Eeta in Heta. clear Hin HV' EW Ephi Eeta HV s.
+    cbv beta. unfold block_V2, block_V. cbv zeta. rewrite sum_of_nat_eqb0, <- app_length.
+    generalize (positions (Z.of_nat m) (d_dd1 d)) as idx1. generalize (positions (Z.of_nat m) (d_dd2 d)) as idx2. intros idx2 idx1.
+    destruct (idx1 ++ idx2) as [|i0 idx0] eqn:E; cbn [length fst snd].
+    + unfold draw_normal_vec. cbn [gbind]. rewrite !map_map. unfold np_vmul. rewrite np_get_nat.
+      fold (rnth (phi2 s') m). rewrite (zipw_rows Qcmult _ _ (c_D g) (proj2 Hphi m Hm') Heta), map_tab.
+      unfold lam_V2. rewrite map_tab. constructor. intros v. rewrite np_store_nat. apply geq_refl.
+    + rewrite <- E. clear E i0 idx0.
+      rewrite ?src_get_is_model. cbn [gbind]. unfold np_take, np_gather. rewrite !map_map. unfold q0, qnum.
+      rewrite ?zipw_map.
+      repeat match goal with |- context [if (Z.of_nat (length ?l) =? 0)%Z then GRet ?e else GRet ?t] =>
+        match eval pattern l in t with ?F _ =>
+          replace (if (Z.of_nat (length l) =? 0)%Z then GRet e else GRet t) with (GRet t)
+            by (symmetry; exact (if_len_nil_gen l F e eq_refl))
+        end end.
+      cbn [gbind]. cbv beta iota.
+      rewrite (np_get_nat [] (V2 s') m). fold (rnth (V2 s') m). set (cur := rnth (V2 s') m).
+      match goal with |- context [np_matvec (map ?f idx1) cur] => set (xa := f) end.
+      match goal with |- context [np_matvec (map ?f idx2) cur] => set (xb := f) end.
+      set (rows1 := mk_rows g d s' (xrow_V2a g d s') cur idx1).
+      set (rows2 := mk_rows g d s' (xrow_V2b g d s') cur idx2).
+      assert (HX1 : Forall2 (row_rel (c_D g)) (map xa idx1) rows1)
+        by (apply Forall2_map_same; intros x; apply rel_V2a, HW).
+      assert (HX2 : Forall2 (row_rel (c_D g)) (map xb idx2) rows2)
+        by (apply Forall2_map_same; intros x; apply rel_V2b, HW).
+      pose proof (Forall2_app HX1 HX2) as HX.
+      rewrite (matvec_rel _ _ _ cur HX1), (matvec_rel _ _ _ cur HX2).
+      unfold rows1 at 1, rows2 at 1. rewrite !resid_rows. fold rows1 rows2. rewrite <- !map_app.
+      rewrite (xtr_rel _ _ _ (prec s') HX).
+      rewrite (gram_rel _ _ _ (prec s') HX _ (lam_V2 g s' m)) by (intros; now apply lam_V2_rel).
+      unfold draw_mvn. cbn [gbind]. constructor. intros [q|w|mm|]; try apply geq_refl.
+      rewrite np_store_nat. cbn [V2 set_V2 Mu]. rewrite np_get_nat, nth_set_nth_same by exact Hm.
+      rewrite (matvec_rel _ _ _ w HX). unfold np_vsub. rewrite zipw_map. apply geq_refl.
+  - intros s' m v _ (EW & Ephi & Eeta & HV'). unfold block_V2, block_V. cbv zeta.
+    destruct (_ ++ _); cbn [snd]; [|destruct v]; cbn [W V2 phi2 eta2 set_V2 set_Mu]; rewrite ?set_nth_length; auto.
+  - auto.
+Qed.
+
+Lemma lam_V1_rel g s m j : (j < c_D g)%nat ->
+  vnth (np_vmul (np_get [] (phi1 s) (Z.of_nat m)) (eta1 s)) j = vnth (lam_V1 g s m) j.
+Proof. intros Hj. unfold np_vmul, lam_V1. rewrite vnth_zipw_mul, np_get_nat, vnth_tab by exact Hj. reflexivity. Qed.
+
+
+Theorem src_V1_step_is_model g d orc s :
+  length (V1 s) = c_ndd g -> shape2 (W s) (c_ncl g) (c_D g) -> shape2 (phi1 s) (c_ndd g) (c_D g) -> length (eta1 s) = c_D g ->
+  prog_eq (to_prog (src_V1_step g d s)) (step_prog g d orc BV1 s).
+Proof.
+  intros HV HW Hphi Heta. unfold src_V1_step. cbv zeta. cbn [step_prog]. rewrite zrange_of_nat.
+  eapply prog_eq_trans; [apply to_prog_gbind|].
+  eapply prog_eq_trans; [|apply bind_ret_r]. apply bind_cong; [|intros; apply prog_eq_refl].
+  apply (fold_is_seq_blocks (fun s' => W s' = W s /\ phi1 s' = phi1 s /\ eta1 s' = eta1 s /\ length (V1 s') = c_ndd g)
+           _ (fun m s' => block_V1 g d s' m)).
+  - intros s' m Hin (EW & Ephi & Eeta & HV'). assert (Hm : (m < length (V1 s'))%nat) by (apply in_seq in Hin; lia).
+    assert (Hm' : (m < c_ndd g)%nat) by lia.
+    rewrite <- EW in HW. rewrite <- Ephi in Hphi. rewrite <- Eeta in Heta. clear Hin HV' EW Ephi Eeta HV s.
+    cbv beta. unfold block_V1, block_V. cbv zeta. rewrite sum_of_nat_eqb0, <- app_length.
+    generalize (positions (Z.of_nat m) (d_dd1 d)) as idx1. generalize (positions (Z.of_nat m) (d_dd2 d)) as idx2. intros idx2 idx1.
+    destruct (idx1 ++ idx2) as [|i0 idx0] eqn:E; cbn [length fst snd].
+    + unfold draw_normal_vec. cbn [gbind]. rewrite !map_map. unfold np_vmul. rewrite np_get_nat.
+      fold (rnth (phi1 s') m). rewrite (zipw_rows Qcmult _ _ (c_D g) (proj2 Hphi m Hm') Heta), map_tab.
+      unfold lam_V1. rewrite map_tab. constructor. intros v. rewrite np_store_nat. apply geq_refl.
+    + rewrite <- E. clear E i0 idx0.
+      rewrite ?src_get_is_model. cbn [gbind]. unfold np_take, np_gather. rewrite !map_map. unfold q0, qnum.
+      rewrite ?zipw_map.
+      repeat match goal with |- context [if (Z.of_nat (length ?l) =? 0)%Z then GRet ?e else GRet ?t] =>
+        match eval pattern l in t with ?F _ =>
+          replace (if (Z.of_nat (length l) =? 0)%Z then GRet e else GRet t) with (GRet t)
+            by (symmetry; exact (if_len_nil_gen l F e eq_refl))
+        end end.
+      cbn [gbind]. cbv beta iota.
+      rewrite (np_get_nat [] (V1 s') m). fold (rnth (V1 s') m). set (cur := rnth (V1 s') m).
+      match goal with |- context [np_matvec (map ?f idx1) cur] => set (xa := f) end.
+      set (rows1 := mk_rows g d s' (xrow_V1 g d s') cur idx1).
+      set (rows2 := mk_rows g d s' (xrow_V1 g d s') cur idx2).
+      assert (HX1 : Forall2 (row_rel (c_D g)) (map xa idx1) rows1)
+        by (apply Forall2_map_same; intros x; apply rel_V1, HW).
+      assert (HX2 : Forall2 (row_rel (c_D g)) (map xa idx2) rows2)
+        by (apply Forall2_map_same; intros x; apply rel_V1, HW).
+      pose proof (Forall2_app HX1 HX2) as HX. rewrite <- map_app in HX.
+      rewrite (matvec_rel _ _ _ cur HX1), (matvec_rel _ _ _ cur HX2).
+      unfold rows1 at 1, rows2 at 1. rewrite !resid_rows. fold rows1 rows2. rewrite <- !map_app.
+      rewrite (xtr_rel _ _ _ (prec s') HX).
+      rewrite (gram_rel _ _ _ (prec s') HX _ (lam_V1 g s' m)) by (intros; now apply lam_V1_rel).
+      unfold draw_mvn. cbn [gbind]. constructor. intros [q|w|mm|]; try apply geq_refl.
+      rewrite np_store_nat. cbn [V1 set_V1 Mu]. rewrite np_get_nat, nth_set_nth_same by exact Hm.
+      rewrite (matvec_rel _ _ _ w HX). unfold np_vsub. rewrite zipw_map. apply geq_refl.
+  - intros s' m v _ (EW & Ephi & Eeta & HV'). unfold block_V1, block_V. cbv zeta.
+    destruct (_ ++ _); cbn [snd]; [|destruct v]; cbn [W V1 phi1 eta1 set_V1 set_Mu]; rewrite ?set_nth_length; auto.
+  - auto.
+Qed.
